@@ -624,8 +624,8 @@ def attach_find():
                           {"rule": label, "tree": S.to_json(S.shadow(S.root_of(expr))), "before": S.text_of(expr),
                            "summary": f"{label}.find_node on '{S.text_of(expr)}' returned index {_ix(order, res)} expected {_ix(order, want)}"})
 
-    contracts.attach(BaseRule, "find_nodes", post=post_nodes)
-    contracts.attach(BaseRule, "find_node", post=post_node)
+    contracts.attach_hierarchy(BaseRule, "find_nodes", post=post_nodes)
+    contracts.attach_hierarchy(BaseRule, "find_node", post=post_node)
 
 
 def _ix(order, n):
